@@ -166,6 +166,25 @@ class PropertyCheck:
         solve.discharge(allobs)
         for rep in self.reports:
             self.judge_report(rep, baseline)
+        self.extra = []
+        if self.spec.get("layouts"):
+            # live construct declarations against the independent layout tables
+            try:
+                from . import layout
+                from contracts import layouts as _lt
+                tabs = {k: _lt.TABLES[k] for k in self.spec["layouts"]}
+                self.extra = layout.check_layouts(tabs, REPO)
+            except Exception as e:
+                self.checker_errors.append(f"layout check: {e!r}")
+            for x in self.extra:
+                if x["status"] == "refuted":
+                    path = self.write_replay("layout", x["label"], None, None,
+                                             note="the live construct declaration disagrees with the independent layout table: " + x["detail"])
+                    self.violations.append({"function": "layout", "obligation": x["label"], "replay": path, "confirmed": False})
+                    self.say(f"VIOLATION property={self.pid} replay={path} obligation={x['label']} ({x['detail']}) no-failing-input-found")
+                elif x["status"] == "unknown":
+                    self.undecided.append({"function": "layout", "obligation": x["label"], "why": x["detail"]})
+                    self.say(f"UNDECIDED obligation={x['label']} reason={x['detail'][:120]}")
         if self.spec.get("post_scan") == "no_cursor_precondition":
             # C11: no view contract may assume anything about the shared substream's cursor
             bad = []
@@ -420,7 +439,7 @@ class PropertyCheck:
         safe = "".join(ch if ch.isalnum() else "_" for ch in label)[-80:]
         path = os.path.join(REPLAY_DIR, f"{self.pid}-{safe}.json")
         doc = {"property": self.pid, "function": key, "obligation": label, "note": note,
-               "contract_module": self.owner.get(key) or self.lemma_module_of(REGISTRY[key]) if key in REGISTRY else None,
+               "contract_module": (self.owner.get(key) or self.lemma_module_of(REGISTRY[key])) if key in REGISTRY else None,
                "lemma": bool(getattr(REGISTRY.get(key), "lemma_src", None)) and not self.owner.get(key), "inputs": viol["inputs"] if viol else None,
                "observed": viol.get("outcome") if viol else None, "failed": viol.get("failed") if viol else None,
                "solver": {"status": ob.status, "backend": ob.backend, "info": ob.info,
@@ -491,6 +510,10 @@ class PropertyCheck:
                         pass
             for l, s in getattr(rep, "label_status", {}).items():
                 labels[l] = s
+        for x in getattr(self, "extra", []):
+            labels[x["label"]] = x["status"]
+            b = self.backends.setdefault(x["backend"], {"count": 0, "seconds": 0.0})
+            b["count"] += 1
         n_obl = len(labels)
         n_dis = sum(1 for s in labels.values() if s == "discharged")
         for rep in self.reports:
